@@ -417,3 +417,33 @@ def shortest_expansions(g: Grammar, skip=()) -> Dict[str, Tuple[str, ...]]:
                     best[p.lhs] = exp
                     changed = True
     return best
+
+
+def contexts(g: Grammar, short: Dict[str, Tuple[str, ...]]) -> Dict[str, Tuple[Tuple[str, ...], Tuple[str, ...]]]:
+    """Shortest terminal (prefix, suffix) around each non-terminal in a sentence derived from the start symbol."""
+    nts = set(g.nonterminals)
+    ctx: Dict[str, Tuple[Tuple[str, ...], Tuple[str, ...]]] = {g.start: ((), ())}
+    changed = True
+    while changed:
+        changed = False
+        for p in g.productions[1:]:
+            if p.lhs not in ctx:
+                continue
+            pre, suf = ctx[p.lhs]
+            for i, s in enumerate(p.rhs):
+                if s not in nts:
+                    continue
+                try:
+                    left: Tuple[str, ...] = ()
+                    for x in p.rhs[:i]:
+                        left += short[x] if x in nts else (x,)
+                    right: Tuple[str, ...] = ()
+                    for x in p.rhs[i + 1:]:
+                        right += short[x] if x in nts else (x,)
+                except KeyError:
+                    continue
+                cand = (pre + left, right + suf)
+                if s not in ctx or len(cand[0]) + len(cand[1]) < len(ctx[s][0]) + len(ctx[s][1]):
+                    ctx[s] = cand
+                    changed = True
+    return ctx
